@@ -267,8 +267,8 @@ def rule_a(ctx: Context, R: Reporter, f: FuncInfo):
 
 def run(ctx: Context, R: Reporter):
     f = _weights_fn(ctx)
-    rule_a(ctx, R, f)
-    rule_b(ctx, R, f)
+    R.guard(rule_a, ctx, R, f)
+    R.guard(rule_b, ctx, R, f)
 
 
 def variants():
